@@ -1,7 +1,7 @@
 """C14 — the bootstrapped grammar parser is the parser its grammar file denotes."""
 from props.common import *
 
-MODULE = "PestModel.Thm.C14"
+MODULE = ["PestModel.Thm.C14", "PestModel.Thm.Capstone"]
 DRV, MODE = "drv_meta", "grammar"
 
 
@@ -16,7 +16,7 @@ def run(ctx):
             "the grammar value is regenerated on every run by harness/src/bin/tr_grammar.rs using the real pest_meta front-end (dumped before optimisation); its reading of grammar.pest is cross-checked by the acceptance/token-tree correspondence itself and by C07",
             "the freshly generated parser is executed by interpreting its emitted code (see C02)",
         ],
-        leancheck=[MODULE],
+        leancheck=MODULE,
         extra_cov={"explanation": "translation validation of the bootstrap: the checked-in generated parser is compared (a) textually with a regeneration, (b) behaviourally with the VM, a freshly generated parser and the reference denotation of the regenerated grammar"},
     )
     # translation_validation evidence keys
